@@ -71,7 +71,7 @@ PROPS = {
     "C08": P("asan", "fault_enumeration", (14000, 30), (400000, 480),
              "a scenario is a fault-free prefix history (2-25 steps), one target call (parse entry points, print variants, every create*, bulk constructors, Add*ToObject helpers, AddItemToObject, AddItemReferenceTo*, Duplicate, ReplaceItemInObject*, SetValuestring growing) and a fault-free suffix; the target is first run fault-free to count its n allocation requests, then the scenario is replayed once per k in 1..n with request k refused (custom malloc, or default malloc/realloc). Oracles: the call completes normally or returns its documented failure value; on failure the ledger live set equals the one before the call, every pre-existing root passes the structural walk and prints the same two texts; the suffix runs without crash and the final ledger is balanced. Distinct by (target call kind, k, allocator side, outcome); non-trivial when k >= 2.",
              "(target call kind, k, allocator side, outcome) tuples with k >= 2",
-             [SIM_ALLOC, SIM_IN], probes=["failed_cleanly", "completed_despite_failure"], hang_s=120),
+             [SIM_ALLOC, SIM_IN], probes=["failed_cleanly"], hang_s=120),
 
     "C01": P("asan", "fault_enumeration", (2400, 30), (300000, 480),
              "the document store is filled with texts serialised from random model values (all token kinds, escapes, surrogates, 63-character numbers, BOM, whitespace), token soups, raw blocks and 998..100000-deep nestings; sampled storage faults (bit flip, byte replace, lost/duplicated span, inserted structural byte, splice, zero byte, grammar-biased edits such as bare \\u runs, ...) are applied; in a third of the runs the short-write fault is then ENUMERATED: every truncation point n in [0,|t|] (documents up to 4000 bytes), each once as exact-length unterminated buffer and once zero-terminated; the other runs only sample faults. Reads go through 1-3 of the four entry points (both require_null_terminated values, with/without return_parse_end, both allocator configurations). The bytes end flush against an inaccessible page and are read-only during the call. Oracles: no access outside the declared bytes, input unchanged, call returns, result NULL or a tree that passes a bounded structural walk, prints in both formats and deletes; ledger live set afterwards equals the one before. Distinct by (byte class before the cut, byte class after the cut, entry point, terminated?, last sampled fault kind, outcome) for non-empty documents.",
